@@ -17,7 +17,12 @@ import PdfModel.Drv.C02
                  (len = `d<n>` | `i<id>` | `b`)
       `streamEnd` is the model lexer expecting `endstream` `endobj`; `decode` is the identity;
       members of object streams are unsigned integers (`parseMember` = first word as usize).
-      → `start=<..> trailer=<tag> <id>:<result> ...` for ids 0..size+2, then ` scan=<..>`
+      → `start=<..> trailer=<tag> <id>:<result> ...` for ids 0..size+2
+  c17.scan <hex> <S-table>
+      `Offsets.scan` from the header found by `locateStart`, with `scanItems` instantiated by a word
+      scanner over the slice: every `int int obj` is an object; S-table `id=rel.len` (joined by `+`) says
+      which numbers are streams, where their data begins relative to the object and how long it is (the
+      scanner continues behind the data).   → `ok <id | id@a-b> ...` | `err` | `panic`
 -/
 
 namespace DrvC17
@@ -122,6 +127,49 @@ def tableParsers (len : Nat) (xs : List (Nat × List Xref.Sub × Trailer)) (os :
     | .err => .err | .panic => .panic | .oof => .oof
   scanItems := fun _ => []
 
+def kwObj : Bytes := [111, 98, 106]
+
+/-- the word scanner: `fuel` bounds the number of words -/
+def scanWords (st : List (Nat × Nat × Nat)) (total : Nat) : Nat → Bytes → List (Out (Obj Val))
+  | 0, _ => []
+  | fuel + 1, r =>
+    match nextWord r with
+    | .ok (w1, r1) =>
+      match parseUsize w1, nextWord r1 with
+      | .ok id, .ok (w2, r2) =>
+        match parseUsize w2, nextWord r2 with
+        | .ok _, .ok (w3, r3) =>
+          if w3 = kwObj then
+            let tok := total - r1.length - w1.length
+            match st.find? (fun e => e.1 == id) with
+            | some (_, rel, len) =>
+              .ok (.stream ⟨id, 0, 0⟩ (tok + rel) (tok + rel + len)) :: scanWords st total fuel (r.drop (tok + rel + len - (total - r.length)))
+            | none => .ok (.plain ⟨id, 0, 0⟩) :: scanWords st total fuel r3
+          else scanWords st total fuel r1
+        | _, _ => scanWords st total fuel r1
+      | _, _ => scanWords st total fuel r1
+    | _ => []
+
+def parseS (s : String) : Option (Nat × Nat × Nat) :=
+  match s.splitOn "=" with
+  | [id, rest] =>
+    match rest.splitOn "." with
+    | [rel, len] => do some (← natOf id, ← natOf rel, ← natOf len)
+    | _ => none
+  | _ => none
+
+def scanParsers (st : List (Nat × Nat × Nat)) : Parsers Val Trailer where
+  xrefAt := fun _ => .err
+  sizeOf := fun t => t.size
+  prevOf := fun t => t.prev
+  objAt := fun _ _ => .err
+  streamEnd := fun _ => .err
+  asLen := fun _ => .err
+  stmHead := fun _ => .err
+  decode := fun _ _ => .err
+  parseMember := fun _ _ => .err
+  scanItems := fun slice => scanWords st slice.length (slice.length + 1) slice
+
 def showObj : Out (Obj Val) → String
   | .ok (.plain v) => s!"v{v.marker}"
   | .ok (.stream v a b) => s!"s{v.marker}@{a}-{b}"
@@ -178,6 +226,20 @@ def handle (args : List String) : String :=
         s!"start={start} trailer={tr.tag} {joinWith " " rs}"
       | o => o.tag
     | _, _, _, _ => "bad-request"
+  | ["c17.scan", h, stt] =>
+    match bytesOfHex h, parseTable parseS stt with
+    | some buf, some st =>
+      match locateStart buf with
+      | .ok start =>
+        match scan (scanParsers st) buf start with
+        | .ok items => "ok " ++ joinWith " " (items.map fun it =>
+            match it with
+            | .ok (.plain v) => s!"{v.marker}"
+            | .ok (.stream v a b) => s!"{v.marker}@{a}-{b}"
+            | _ => "E")
+        | o => o.tag
+      | o => o.tag
+    | _, _ => "bad-request"
   | _ => "bad-request"
 
 end DrvC17
